@@ -89,7 +89,9 @@ func (c20) build(c *mon.Ctx) c20Case {
 	r := c.R
 	cs := c20Case{Files: map[string]string{}}
 	ext := []string{".p", ".ppl"}[r.Intn(2)]
-	cs.Script = "main" + ext
+	// script names: anything ending in .p / .ppl is a script, whatever else the name holds
+	cs.Script = []string{"main", "main", "app.v2", "nginx.access.log", "my-script_1", "UPPER.Case"}[r.Intn(6)] + ext
+	libName := []string{"lib.p", "lib.p", "lib.v1.ppl", "common.lib.p"}[r.Intn(4)]
 	var body strings.Builder
 	n := 1 + r.Intn(4)
 	for k := 0; k < n; k++ {
@@ -103,8 +105,8 @@ func (c20) build(c *mon.Ctx) c20Case {
 			cs.ScriptTime = true
 		}
 	}
-	cs.Files[cs.Script] = body.String()
-	cs.Files["lib.p"] = "add_key(from_lib, \"lib\")\nset_tag(libtag, \"1\")\n"
+	cs.Files[cs.Script] = strings.ReplaceAll(body.String(), "\"lib.p\"", "\""+libName+"\"")
+	cs.Files[libName] = "add_key(from_lib, \"lib\")\nset_tag(libtag, \"1\")\n"
 	if r.Intn(3) == 0 {
 		cs.Files["other.ppl"] = "add_key(other, 1)\n"
 	}
